@@ -154,6 +154,15 @@ def main():
         # always include the structurally interesting pairs: same expression rebuilt, swapped operands
         cand += [(i, j) for i in range(n) for j in range(n)] + [(x, x) for x in base] + [(("&", i, j), ("&", j, i)) for i in range(0, n, 3) for j in range(1, n, 5)] + [(("|", i, ("&", j, i)), ("|", ("&", j, i), i)) for i in range(0, n, 7) for j in range(2, n, 9)]
         cand += [(("&", i, ("~", j)), ("&", ("~", j), i)) for i in range(0, n, 5) for j in range(1, n, 7)]
+        # a hashable compound combined with two DIFFERENT unhashable (map) queries: the two results must never be equal
+        unh = [i for i in range(n) if not A[i][3]]
+        hsh = [i for i in range(n) if A[i][3]]
+        comps = [("&", hsh[i % len(hsh)], hsh[(i * 7 + 3) % len(hsh)]) for i in range(0, len(hsh), 6)] + [("~", hsh[i]) for i in range(0, len(hsh), 9)] + [("|", hsh[i % len(hsh)], hsh[(i * 5 + 1) % len(hsh)]) for i in range(0, len(hsh), 8)]
+        for c in comps:
+            for u1 in unh:
+                for u2 in unh:
+                    if u1 < u2:
+                        cand += [((op, c, u1), (op, c, u2)) for op in "&|"] + [((op, u1, c), (op, u2, c)) for op in "&|"]
         for x, y in cand:
             evals += 1
             check_exprs([x, y], A, pts, failures, "C17")
